@@ -26,7 +26,7 @@ CONSTANTS
   Objs,        \* live running-order objects, e.g. {1} or {1, 2}
   Depth,       \* steps per behaviour
   Mode,        \* "alphabet" | "random"
-  Theme,       \* alphabet mode: "all" | "story" | "item" | "carry"
+  Theme,       \* alphabet mode: "all" | "story" | "item" | "carry" | "share"
   Export       \* TRUE: print each behaviour of length Depth
 
 VARIABLES ros, hist, ended
@@ -98,7 +98,10 @@ AlphabetCarry(K) ==          \* messages that carry content, then edits inside w
        Msg("StoryReplace", RefId(f), RefAbsent, <<>>, FreshStories(K, 2)),
        Msg("ItemDelete", RefId(f), RefAbsent, <<RefId(fi)>>, <<>>),
        Msg("ItemDelete", RefId(l), RefAbsent, <<RefId(li)>>, <<>>),
+       Msg("ItemDelete", RefId(SecondStory(K)), RefAbsent, <<RefId(FirstItemOf(K, SecondStory(K)))>>, <<>>),
        Msg("ItemInsert", RefId(l), RefBlank, <<>>, FreshItems(fk, 1)),
+       Msg("StoryAppend", RefAbsent, RefAbsent, <<>>,
+           <<StoryEmpty(FreshFrom(FreshPoolS, IdSet(K, "story"))[1])>>),              \* a placeholder story without items
        Msg("EAItemReplace", RefId(f), RefId(fi), <<>>, FreshItems(fk, 1)),
        Msg("MetaDataReplace", RefAbsent, RefAbsent, <<>>,
            << Leaf("roID", RoIdC, "="), Leaf("roSlug", None, "x:newSlug") >>) }
@@ -117,8 +120,18 @@ AlphabetMisc(K) ==
      \cup SendTo(K, FirstStory(K), 5, None)
      \cup { m \in OtherMsgs("RunningOrderReplace", K) : Len(m.carried) = 3 /\ m.carried[3].tag # "story" }
 
+AlphabetShare(K) ==          \* one message object delivered to two running orders, then an edit in one of them
+  LET f == FirstStory(K)
+      fi == FirstItemOf(K, f)
+      fk == IF Idx(K, "story", f) = 0 THEN <<>> ELSE K[Idx(K, "story", f)].kids
+  IN { Msg("ItemDelete", RefId(f), RefAbsent, <<RefId(fi)>>, <<>>),
+       Msg("ItemInsert", RefId(f), RefBlank, <<>>, FreshItems(fk, 1)),
+       Msg("StoryReplace", RefId(f), RefAbsent, <<>>, FreshStories(K, 2)) }
+     \cup { m \in SendMsgs(K) : m.story = RefId(f) /\ m.bodyPos = 5 /\ Len(m.body) = 1 /\ m.stok = None }
+
 Alphabet(K) ==
   CASE Theme = "story" -> AlphabetStory(K)
+    [] Theme = "share" -> AlphabetShare(K)
     [] Theme = "item"  -> AlphabetItem(K)
     [] Theme = "carry" -> AlphabetCarry(K)
     [] OTHER -> AlphabetStory(K) \cup AlphabetItem(K) \cup AlphabetCarry(K) \cup AlphabetMisc(K)
@@ -179,7 +192,7 @@ RemergeFirst ==
 Next ==
   /\ Len(hist) < Depth
   /\ \/ MergeStep
-     \/ (Mode = "alphabet" /\ Theme \in {"carry", "all"} /\ RemergeFirst)
+     \/ (Mode = "alphabet" /\ Theme \in {"carry", "share", "all"} /\ RemergeFirst)
      \/ (Mode = "random" /\ RemergeStep)
      \/ (Mode = "random" /\ ReloadStep)
      \/ (Mode = "random" /\ ObserveStep)
@@ -201,13 +214,17 @@ Inv_CompletedIffEnded == \A o \in Objs : Completed(ros[o]) <=> ended[o]
 (* C07: completion is terminal and nothing changes afterwards             *)
 Act_Terminal ==
   [][\A o \in Objs : Completed(ros[o]) => ros'[o] = ros[o]]_lvars
-(* C14: envelope                                                          *)
+(* C14: envelope - the children of <mos> other than the completion record; the <roCreate> element's own          *)
+(* attributes may be replaced by a roReplace (C04), everything else stays                                          *)
+EnvelopeOf(ro) ==
+  LET rp == RootPlain(ro)
+  IN [i \in DOMAIN rp |-> IF rp[i].tag = "roCreate" THEN [rp[i] EXCEPT !.tok = None] ELSE rp[i]]
 Inv_Envelope ==
   \A o \in Objs :
      /\ NRoCreate(ros[o]) = 1
      /\ MessageId(ros[o]) = MessageId(InitShape(o))
      /\ Len(MetaNodes(ros[o])) <= 1
-     /\ RootPlain(ros[o]) = RootPlain(InitShape(o))
+     /\ EnvelopeOf(ros[o]) = EnvelopeOf(InitShape(o))
 (* C01 premise is kept by pinned steps: story ids stay unique unless a    *)
 (* message carries a duplicate                                            *)
 Inv_TypeOK ==
